@@ -173,6 +173,36 @@ func (rt *ResultTypeExpr) ViewHasAttribute(view, attr string) bool {
 	return v.AttributeExpr.Find(attr) != nil
 }
 
+// validateNestedViews makes sure that the views used to render the view
+// attributes that are themselves result types exist.
+func (rt *ResultTypeExpr) validateNestedViews(parent eval.Expression) *eval.ValidationErrors {
+	verr := new(eval.ValidationErrors)
+	for _, v := range rt.Views {
+		if v.AttributeExpr == nil {
+			continue
+		}
+		vobj := AsObject(v.Type)
+		if vobj == nil {
+			continue
+		}
+		for _, nat := range *vobj {
+			view, ok := nat.Attribute.Meta.Last(ViewMetaKey)
+			if !ok || view == DefaultView {
+				continue
+			}
+			att := rt.Find(nat.Name)
+			if att == nil {
+				continue
+			}
+			if art, ok := att.Type.(*ResultTypeExpr); ok && art.View(view) == nil {
+				verr.Add(parent, "view %q of type %q: attribute %q uses view %q but type %q does not define it",
+					v.Name, rt.Name(), nat.Name, view, art.Name())
+			}
+		}
+	}
+	return verr
+}
+
 // Finalize builds the default view if not explicitly defined and finalizes
 // the underlying UserTypeExpr.
 func (rt *ResultTypeExpr) Finalize() {
